@@ -6,7 +6,7 @@ from checks.outparse import parse_raws, txt
 
 ID = "C12"
 LEAN_MODULES = ["Econf.Props.C12"]
-THEOREMS = []
+THEOREMS = ["Econf.C12_history_callback", "Econf.C12_dirs_callback", "Econf.C12_config_callback", "Econf.C12_dirs_config", "Econf.C12_history", "Econf.readHistory_sim"]
 SHRINK = False
 RULE = ("two-directory trees (and default three-layer trees) x suffix spellings x NULL/empty directory arguments x process-wide drop-in "
         "list: econf_readDirs, econf_readConfig with PARSING_DIRS of the same directories, both callback variants with an accepting "
